@@ -197,9 +197,11 @@ impl AsyncRuntime for ManualRuntime {
             };
             let w = {
                 let mut g = self.gates.gates.borrow_mut();
+                // `<label>` = the oldest outstanding request with this label, `<label> <k>` = the k-th oldest
+                let ordinal = open[..=k].iter().filter(|&&i| g[i].label == g[open[k]].label).count();
                 let gate = &mut g[open[k]];
                 gate.done = true;
-                self.gates.events.borrow_mut().push(format!("complete {}", gate.label));
+                self.gates.events.borrow_mut().push(if ordinal == 1 { format!("complete {}", gate.label) } else { format!("complete {} {ordinal}", gate.label) });
                 gate.waker.take()
             };
             if let Some(w) = w { w.wake(); }
